@@ -1,12 +1,12 @@
-\* exhaustive (quick), heights 0..9, three contents (ranking and BPCOUNT change separately), BPCOUNT variable (2 or 3) under the REPAIRED rule (CountFix: the count is read from the state of the snapshot block): all properties hold
+\* exhaustive (thorough), heights 0..11, all four contents, BPCOUNT variable (2 or 3) under the REPAIRED rule (CountFix: the count is read from the state of the snapshot block): all properties hold
 SPECIFICATION Spec
 CONSTANTS
   P = 2
-  MaxH = 9
+  MaxH = 11
   Genesis <- Gen3
   Rankings <- Rank2
   Counts <- C23
-  ContentSet <- ThreeContents
+  ContentSet <- Every
   DefaultCount = 3
   MaxChanges = 2
   MaxLibLag = 0
